@@ -362,6 +362,9 @@ var Prop = &harness.Prop{
 			}
 		}
 		u = append(u, reuseUnit())
+		for p := 0; p < 8; p++ {
+			u = append(u, freshModesUnit(p, 8))
+		}
 		hd := 4
 		if tier == "thorough" {
 			hd = 5
